@@ -379,10 +379,18 @@ def writers(prog, owner_rx, field_rx=None):
 
 
 # ------------------------------------------------------------------ call graph utilities
-def cone(prog, roots, stop=None, max_depth=50):
+def cone(prog, roots, stop=None, max_depth=50, cha_ok=None):
     """set of local fn paths reachable from roots via resolved calls + CHA (closures included
-    when they are constructed in a reached body)."""
+    when they are constructed in a reached body).  cha_ok(call, target) -> bool restricts which impls an
+    unresolved trait call is expanded to (default: all impls of the trait method)."""
     seen = set()
+
+    def targets(f, c):
+        tg = prog.callee_targets(f, c)
+        if cha_ok is not None and not c.get('res') and 'op' not in c and c.get('trait') and \
+                prog.raw2norm.get(c['def'], core.strip_generics(c['def'])) not in prog.fns:
+            tg = [t for t in tg if cha_ok(c, t)]
+        return tg
     dq = deque((r, 0) for r in roots)
     stop = stop or (lambda p: False)
     while dq:
@@ -394,7 +402,7 @@ def cone(prog, roots, stop=None, max_depth=50):
             continue
         f = prog.fns[p]
         for bi, c, t in prog.calls_of(f):
-            for tgt in prog.callee_targets(f, c):
+            for tgt in targets(f, c):
                 if tgt not in seen:
                     dq.append((tgt, d + 1))
         for b in f.blocks:
@@ -410,14 +418,14 @@ def cone(prog, roots, stop=None, max_depth=50):
                 if st[0] == '=':
                     for k in iter_consts(st[2]):
                         if 'fn' in k:
-                            for tgt in prog.callee_targets(f, k['fn']):
+                            for tgt in targets(f, k['fn']):
                                 if tgt not in seen:
                                     dq.append((tgt, d + 1))
             t = b['t']
             if t[0] == 'call':
                 for a in t[2]:
                     if a[0] == 'k' and 'fn' in a[1]:
-                        for tgt in prog.callee_targets(f, a[1]['fn']):
+                        for tgt in targets(f, a[1]['fn']):
                             if tgt not in seen:
                                 dq.append((tgt, d + 1))
     return seen
